@@ -21,10 +21,11 @@ RULE = ("same exhaustively enumerated (<=3 quick / <=4 thorough lines over the 1
         "newline; distinct by content")
 
 
-def evaluate_content(ctl, content, closed=()):
+def evaluate_content(ctl, content, closed=(), fstate=None):
     P = ctl.P
     old = ctl.subst(content)
-    ctl.put(old)
+    # the file may be a symbolic link with a relative target (commands run from another directory) or last changed days ago
+    ctl.put(old, symlink=(fstate == "symlink"), old_mtime=(fstate == "oldmtime"))
     old_eff = old or b""
     # the command may be started without some of its standard descriptors (`snoopyctl ... >&-`): the file must come out the same
     rc, out, err = ctl.run("disable", closed=closed)
@@ -51,7 +52,7 @@ def evaluate_content(ctl, content, closed=()):
 def evaluate(env, c):
     if not hasattr(env, "ctl"):
         env.ctl = preload.Ctl(next(iter(env.builds.values())), os.path.join(env.run.dir, "ctl-%d" % os.getpid()))
-    evaluate_content(env.ctl, c["content"], tuple(c.get("closed", ())))
+    evaluate_content(env.ctl, c["content"], tuple(c.get("closed", ())), c.get("fstate"))
 
 
 def main():
